@@ -252,7 +252,8 @@ def run_shard(args):
             if r is not None:
                 recs.append(r)
         answers = driver.run_lines([{'op': 'vm', **r['case'], 'steps': r['steps']} for r in recs])
-        stats = {'histories': 0, 'calls': 0, 'ops': {}, 'caches': {}, 'errors': {}, 'hits': 0}
+        stats = {'histories': 0, 'calls': 0, 'ops': {}, 'caches': {}, 'errors': {}, 'hits': 0,
+                 'thm_instances': 0, 'thm_hits': 0, 'thm_contradicted': 0, 'thm_hyp_false': 0}
         model_bad, c04_bad, c08_bad = [], [], []
         distinct = set()
         for rec, ans in zip(recs, answers):
@@ -271,6 +272,20 @@ def run_shard(args):
                     if 'err' in real['r']:
                         stats['errors'][real['r']['err']] = stats['errors'].get(real['r']['err'], 0) + 1
             md, c04, c08 = check_case(rec, ans)
+            # instances of CM.C04.full_spec_along_history (+ C05): plain extracted graphs, disk-like stores only, any history
+            if 'results' in ans:
+                for st, real, m in zip(rec['steps'], rec['real'], ans['results']):
+                    if st['t'] != 'call' or 'cached_ok' not in m:
+                        continue
+                    if m['cached_ok'] and m.get('call_ok'):
+                        stats['thm_instances'] += 1
+                        if not real['log']:
+                            stats['thm_hits'] += 1
+                        user = isinstance(m['r'].get('err'), str) and m['r']['err'].startswith('user:') and st.get('fail_at')
+                        if not user and canon(m['den']) != canon(m['r']):
+                            stats['thm_contradicted'] += 1
+                    else:
+                        stats['thm_hyp_false'] += 1
             base = {'desc': rec['desc'], 'ops': rec['ops']}
             if md:
                 model_bad.append({**base, 'diffs': json.loads(json.dumps(md[:3], default=str))})
